@@ -34,7 +34,11 @@ func NewSPDX23() *SPDX23 {
 func (s *SPDX23) Render(doc interface{}, wr io.Writer, o *native.RenderOptions, _ interface{}) error {
 	// TODO: add support for XML
 	encoder := json.NewEncoder(wr)
-	encoder.SetIndent("", strings.Repeat(" ", o.Indent))
+	indent := o.Indent
+	if indent < 0 {
+		indent = 0
+	}
+	encoder.SetIndent("", strings.Repeat(" ", indent))
 	if err := encoder.Encode(doc.(*spdx.Document)); err != nil {
 		return fmt.Errorf("encoding sbom to stream: %w", err)
 	}
@@ -49,6 +53,9 @@ func (s *SPDX23) Serialize(bom *sbom.Document, _ *native.SerializeOptions, _ int
 	}
 	if bom.Metadata == nil {
 		return nil, errors.New("document metadata is nil, unable to serialize to SPDX 2.3")
+	}
+	if bom.NodeList == nil {
+		return nil, errors.New("document node list is nil, unable to serialize to SPDX 2.3")
 	}
 	doc := &spdx.Document{
 		SPDXVersion:       spdx.Version,
